@@ -141,7 +141,7 @@ def check_interrupted_sweep(case):
 UNITS = [
     Unit("interrupted_sweep", check_interrupted_sweep, strategy=_interrupted_sweep_cases, quick=18, thorough=500, shards_quick=3,
          doc="every line event and every C-level call of one verify_delegation interrupted once on a fresh envelope, each followed by a normal retry of the same envelope"),
-    Unit("config", check_config, strategy=_config_cases, quick=24, thorough=400, shards_quick=8, shrink=False,
+    Unit("config", check_config, strategy=_config_cases, quick=96, thorough=600, shards_quick=16, shrink=False,
          doc="the delegation rule holds in fresh interpreters under drawn configurations (logging level, -O, warnings, stdout) and discovered environment variables"),
     Unit("delegation", check_case, essential_min=0.01, strategy=gen_deleg.delegation_cases, quick=1500, thorough=60000,
          essential=["other-role-satisfied", "role-only-in-untrusted", "observed=UnknownRoleError",
